@@ -44,8 +44,10 @@ Inductive rule :=
     (* evaluate the children get_args()[i], i in sel, in this order; FArg k = k-th of them *)
 | RFoldArgs (init : lit) (op : bfun)
     (* tmp = init; for p in get_args(): tmp = tmp op apply(p) *)
-| RFoldDict (op item : bfun)
-    (* tmp = apply(coef); for (k, v) in dict: tmp = tmp op (apply(k) item apply(v)) *)
+| RFoldDict (op item : bfun) (val_first : bool) (ecase : option fterm)
+    (* tmp = apply(coef); for (k, v) in dict: tmp = tmp op (apply(k) item apply(v));
+       val_first: apply(v) is built before apply(k);
+       ecase = Some t: when k == E the term is t [FArg 0 = apply(v)] and apply(k) is not built *)
 | RPow (exp_first : bool) (ecase gen : fterm)
     (* exp_first: the exponent is evaluated before the base is looked at;
        if base == E then ecase [FArg 0 = exponent] else gen [FArg 0 = base, FArg 1 = exponent] *)
@@ -113,7 +115,9 @@ Definition rule_eqb (a b : rule) : bool :=
   | RLeafInt, RLeafInt | RLeafRat, RLeafRat | RLeafDbl, RLeafDbl => true
   | RFormula s1 t1, RFormula s2 t2 => list_eqb Nat.eqb s1 s2 && fterm_eqb t1 t2
   | RFoldArgs i1 o1, RFoldArgs i2 o2 => lit_eqb i1 i2 && bfun_eqb o1 o2
-  | RFoldDict o1 i1, RFoldDict o2 i2 => bfun_eqb o1 o2 && bfun_eqb i1 i2
+  | RFoldDict o1 i1 v1 e1, RFoldDict o2 i2 v2 e2 =>
+      bfun_eqb o1 o2 && bfun_eqb i1 i2 && Bool.eqb v1 v2 &&
+      match e1, e2 with Some a, Some b => fterm_eqb a b | None, None => true | _, _ => false end
   | RPow f1 e1 g1, RPow f2 e2 g2 => Bool.eqb f1 f2 && fterm_eqb e1 e2 && fterm_eqb g1 g2
   | RPowPlain g1, RPowPlain g2 => fterm_eqb g1 g2
   | RConstants t1, RConstants t2 =>
